@@ -112,6 +112,50 @@ def run_one(version, flavour, policy, stream, cuts, proto_kind="base"):
             "lines": [d for (_o, d) in eng.logic_in]}
 
 
+def run_reconnect(version, flavour, stream, cut):
+    """The link fails after `cut` bytes and is re-established; the rest arrives on the new connection."""
+    from mysensors.transport import AsyncMySensorsProtocol, BaseMySensorsProtocol
+    from ..drive import Engine, PumpDied, projection
+
+    class Conn:
+        def __init__(self):
+            self.serial = self
+            self.open = True
+
+        def write(self, d):
+            pass
+
+        def close(self):
+            self.open = False
+
+    eng = Engine(flavour, version)
+    P = BaseMySensorsProtocol if flavour == "sync" else AsyncMySensorsProtocol
+    proto = P(eng.gw, lambda: None)
+    orig = proto.handle_line
+
+    def handle_line(line):
+        orig(line)
+        eng.drain()
+
+    proto.handle_line = handle_line
+    crashed = None
+    try:
+        proto.connection_made(Conn())
+        eng.step += 1
+        proto.data_received(stream[:cut])
+        proto.connection_lost(OSError("link failure"))
+        proto.connection_made(Conn())
+        eng.step += 1
+        proto.data_received(stream[cut:])
+        eng.drain()
+    except PumpDied:
+        crashed = eng.pump_exc
+    except Exception as exc:
+        crashed = exc
+    return {"state": projection(eng.gw.sensors), "sent": [l for (_s, _o, l) in eng.sent], "kinds": list(eng.sent_kind),
+            "crashed": crashed, "lines": [d for (_o, d) in eng.logic_in]}
+
+
 def compare(res, ref, got, what, case, allow_interleave):
     from ..drive import strict
 
@@ -183,6 +227,15 @@ def run(job):
             if nlines >= 2 and inside_line:
                 res.nontrivial((core.h(stream.hex()), tuple(cuts[:6]), sk))
             res.count("seg:" + sk)
+        # (5) a link failure and reconnect inside / between lines: the two flavours must still agree with each other
+        for c in sorted(set([1, len(stream) // 3, len(stream) // 2, len(stream) - 1] + [rng.randrange(1, len(stream)) for _ in range(6)])):
+            if not 0 < c < len(stream):
+                continue
+            a = run_reconnect(version, "async", stream, c)
+            b = run_reconnect(version, "sync", stream, c)
+            compare(res, a, b, "flavours-across-reconnect", {"version": version, "stream_hex": stream.hex(), "cuts": [c], "seg": "reconnect", "run": "reconnect"}, False)
+            res.evals += 1
+            res.count("reconnect_comparisons")
         if sn == 0 and job["i"] == 0:
             res.sample({"version": version, "stream": stream.decode("utf-8", "replace")[:300], "segmentations": len(segs),
                         "kinds": sorted({s[0] for s in segs})})
@@ -198,6 +251,10 @@ def replay(case):
     if cuts[-1] != len(stream):
         cuts = cuts + [len(stream)]
     r = case.get("run", "async")
+    if r == "reconnect":
+        c = case["cuts"][0]
+        compare(res, run_reconnect(version, "async", stream, c), run_reconnect(version, "sync", stream, c), "flavours-across-reconnect", case, False)
+        return res
     if r == "async":
         compare(res, ref, run_one(version, "async", "chunk", stream, cuts), "async-segmentation", case, False)
     elif r == "sync-keepup":
@@ -218,10 +275,11 @@ def finish(agg, tier):
                 "up to the size bound), all 1-byte chunks, 120-byte chunks, random k-way splits, cuts inside multi-byte characters "
                 "and between CR and LF. Reference = an asyncio gateway fed the independently split complete lines. Compared: the "
                 "lines handed to the gateway, the final strict projection, the emitted sequence; for the lagging threaded pump the "
-                "multiset and the direct-reply / spawned-job subsequences. distinct = (stream, cut positions); non-trivial when the "
+                "multiset and the direct-reply / spawned-job subsequences; additionally the two flavours are compared with each other when "
+                "the link fails and is re-established at a cut point. distinct = (stream, cut positions); non-trivial when the "
                 "stream has >= 2 complete lines and a cut falls inside a line.",
         "floors": [("runs_compared", c.get("runs_compared", 0), 15000), ("streams", c.get("streams", 0), 60),
-                   ("seg:special", c.get("seg:special", 0), 300), ("seg:cut", c.get("seg:cut", 0), 5000)],
+                   ("seg:special", c.get("seg:special", 0), 300), ("seg:cut", c.get("seg:cut", 0), 5000), ("reconnect_comparisons", c.get("reconnect_comparisons", 0), 500)],
         "assumptions": ["time requests are excluded from the streams (their replies differ between runs by construction)",
                         "'pump keeping up' = the poll loop body runs between two lines; 'lagging' = it runs after each chunk"],
         "show": ["streams", "reference_lines", "runs_compared", "seg:cut", "seg:special"],
